@@ -99,3 +99,43 @@ contract(f"{TC}::TunnelCommunity.find_circuits", "find_circuits.filters",
                   "all((c in result) == (c.goal_hops == hops and c.ctype == 'DATA' and (st is None or c.state == st)"
                   " and EXIT_IPV8 in c.exit_flags) for c in [c1, c2])"],
          bounded="two circuits in the table", note="circuits handed to the tunnel endpoint end in an IPv8-capable exit and have the configured length")
+
+# ---------------------------------------------------------------------------------------------------------------------
+# opting in: an overlay created with anonymize=True on a TunnelEndpoint registers its prefix for anonymity at construction time,
+# whether or not a tunnel community has been attached yet (load order must not matter: without the registration every later packet of
+# that overlay would leave through the raw socket)
+try:
+    from ipv8.community import Community  # noqa: F401
+except ImportError:
+    Community = object
+
+
+class AnonOverlay(Community):
+    """an overlay with a community id (what the loader instantiates with anonymize=True)"""
+
+    community_id = b"\x07" * 20
+
+
+from contracts.common import TASK_STUBS  # noqa: E402
+
+_EPM = "ipv8/messaging/anonymization/endpoint.py::TunnelEndpoint"
+contract("ipv8/community.py::Community.__init__", "anonymize-opts-in-at-construction",
+         vars={"AO": EXPR("resolve_class('contracts/C07.py::AnonOverlay')"), "anon": BOOL, "tc": OPT(EFFECT("tc")),
+               "ep": OBJ(f"{EP}::TunnelEndpoint", endpoint=EFFECT("raw"), hops=INT, settings=EXPR("{}"), tunnel_community=EXPR("tc"),
+                         send_queue=EXPR("deque(maxlen=100)")),
+               "settings": OBJ("ipv8/community.py::CommunitySettings", anonymize=EXPR("anon"), max_peers=INT, endpoint=EXPR("ep"),
+                               my_peer=PEER_OBJ(), community_id=EXPR("None"),
+                               network=OBJ("ipv8/peerdiscovery/network.py::Network", blacklist_mids=EXPR("[]")))},
+         call="AO(settings)", raises=[],
+         stubs={**TASK_STUBS,
+                f"{_EPM}.add_listener": {"event": "add_listener"}, f"{_EPM}.add_prefix_listener": {"event": "add_prefix_listener"},
+                "ipv8/messaging/interfaces/endpoint.py::Endpoint.remove_listener": {"event": "remove_listener"},
+                f"{_EPM}.is_open": {"returns": "bool"}, f"{_EPM}.get_address": {"returns": "('0.0.0.0', 0)"},
+                "ipv8/messaging/interfaces/endpoint.py::EndpointListener._get_lan_address": {"returns": "('0.0.0.0', 0)"},
+                "ipv8/messaging/interfaces/endpoint.py::EndpointListener._is_ipv6_address": {"returns": "bool", "note": "address family of the socket"},
+                "ipv8/peerdiscovery/network.py::Network.register_service_provider": {"event": "register_service_provider"}},
+         ensures=["result._prefix == b'\\x00' + b'\\x02' + b'\\x07' * 20",
+                  "ep.settings.get(result._prefix, False) == anon",
+                  "implies(not anon, len(ep.settings) == 0)"],
+         covers=["anon and tc is None", "anon and tc is not None", "not anon"],
+         note="after construction the endpoint treats the overlay's prefix as anonymised iff the overlay asked for it")
